@@ -13,7 +13,7 @@ INFO = {
 
 RANGE_UNWIND = {"c13_ref_prefix": 11, "varint_encode": 11, "varint_from_source": 11,
                 "rec_sink": 11, "vsrc_read": 11, "which_region": 7, "harness": 5,
-                "check_prefix_buffer": 11, "check_sink": 11,
+                "check_prefix_buffer": 11, "expect_sink": 5,
                 "source_get_chunk": 3, "sink_put_chunk": 3, "flenp_chunks_to_sink": 5,
                 "flenp_chunks_use": 5}
 
